@@ -120,6 +120,13 @@ var vfRegistry = map[string]func(){
 %(reg)s
 }
 
+func vfWatchdog() time.Duration {
+	if vfTape.Label == "deadlock" {
+		return 12 * time.Second
+	}
+	return 60 * time.Second
+}
+
 func TestVfReplay(t *testing.T) {
 	if err := vfLoadTape(os.Getenv("VF_TAPE")); err != nil {
 		t.Fatalf("tape: %%v", err)
@@ -149,13 +156,17 @@ func TestVfReplay(t *testing.T) {
 	var outcome string
 	select {
 	case outcome = <-done:
-	case <-time.After(60 * time.Second):
+	case <-time.After(vfWatchdog()):
 		outcome = "hang"
 	}
 	fmt.Printf("VF-REPLAY outcome=%%q failed=%%q missing=%%q\\n", outcome, vfFailed, vfMissing)
 	want := vfTape.Label
 	switch vfTape.Kind {
 	case "assert":
+		if want == "deadlock" && outcome == "hang" {
+			fmt.Println("VF-REPLAY: REPRODUCED")
+			t.Fatalf("native run deadlocked")
+		}
 		for _, l := range vfFailed {
 			if l == want {
 				fmt.Println("VF-REPLAY: REPRODUCED")
@@ -198,7 +209,8 @@ def replay(prop, cfg, ov, names, viol, params, repo, dest):
     json.dump(tape, open(os.path.join(dest, "tape.json"), "w"), indent=1)
     sh = ("#!/bin/sh\n# replays the counterexample against the native build of %s\ncd %s && "
           "GOFLAGS=-mod=mod GOPROXY=off GOSUMDB=off GOTOOLCHAIN=local VF_TAPE=%s/tape.json "
-          "go test -tags verif -vet=off -count=1 -overlay %s/overlay.json -run 'TestVfReplay$' -v %s\n") % (repo, repo, dest, dest, cfg["pkg"])
+          "go test %s-tags verif -vet=off -count=1 -overlay %s/overlay.json -run 'TestVfReplay$' -v %s\n") % (
+              repo, repo, dest, "-race " if viol["label"] == "data-race" else "", dest, cfg["pkg"])
     open(os.path.join(dest, "run.sh"), "w").write(sh)
     os.chmod(os.path.join(dest, "run.sh"), 0o755)
     try:
@@ -209,6 +221,8 @@ def replay(prop, cfg, ov, names, viol, params, repo, dest):
     open(os.path.join(dest, "replay.log"), "w").write(out)
     if viol["kind"] == "hang" and ("goroutine stack exceeds" in out or "stack overflow" in out or "replay timed out" in out or "test timed out" in out):
         return True, out  # unbounded recursion / no return: the native process died or hung
+    if viol["label"] == "data-race" and "WARNING: DATA RACE" in out:
+        return True, out
     return "VF-REPLAY: REPRODUCED" in out, out
 
 
@@ -325,7 +339,8 @@ def check(prop, tier, seed, cfg, work, t0):
                         confirmed.append({"sig": sig, "replay": dest, "tree": tname, "msg": v["msg"], "pattern": v.get("pattern", "")})
                         ok = True
                         break
-                    shutil.rmtree(dest, ignore_errors=True)
+                    if not os.environ.get("VERIF_KEEP_UNCONFIRMED"):
+                        shutil.rmtree(dest, ignore_errors=True)
                 if not ok:
                     unconfirmed.append({"sig": sig, "tree": tname, "msg": vs[0]["msg"], "n": len(vs)})
                     problems.append("%s/%s: counterexample for %s at %s did not reproduce natively (encoding or stub wrong?)" % (tname, sig[0], sig[2], sig[3]))
